@@ -566,8 +566,33 @@ fn c10_group<G: GroupApi>(run: &Run) {
             }
         }
     }
+    // byte structure of the coordinates: the first discrete logs whose affine x resp. y has a component with a
+    // LEADING ZERO BYTE (1 coordinate in 182): encoders that write "significant bytes only" differ exactly there
+    {
+        let g = G::ref_gen();
+        let mut p = g.clone();
+        let (mut nx, mut ny) = (0, 0);
+        let mut d = 1u64;
+        while (nx < 2 || ny < 2) && d < 6000 {
+            d += 1;
+            p = ec_add(&p, &g);
+            let raw = G::ref_encode(&p, Fmt::Raw).unwrap();
+            let half = raw.len() / 2;
+            let lead = |b: &[u8]| b.chunks(32).any(|c| c[0] == 0);
+            let (lx, ly) = (lead(&raw[..half]), lead(&raw[half..]));
+            if (lx && nx < 2) || (ly && ny < 2) {
+                nx += lx as u32;
+                ny += ly as u32;
+                for rp in [Rep::Aff, Rep::LibMul, Rep::Scaled(G::rf_generic(run.seed, 1))] {
+                    if let Some(v) = build::<G>(&n(d), &rp) {
+                        vs.push(v);
+                    }
+                }
+            }
+        }
+    }
     let nv = vs.len() as u64;
-    const C10_CLASSES: [&str; 6] = ["prefix-02", "prefix-03", "z=1", "z!=1", "odd-root-is-the-larger-root", "odd-root-is-the-smaller-root"];
+    const C10_CLASSES: [&str; 8] = ["prefix-02", "prefix-03", "z=1", "z!=1", "odd-root-is-the-larger-root", "odd-root-is-the-smaller-root", "x-with-a-leading-zero-byte", "y-with-a-leading-zero-byte"];
     run.grid(
         Spec { name: &format!("c10.{}", G::NAME), n: nv * 3, classes: &C10_CLASSES, required: &C10_CLASSES },
         |i| {
@@ -582,21 +607,100 @@ fn c10_group<G: GroupApi>(run: &Run) {
             let larger = yre > (refmodel::q() - &yre);
             let odd = yre.bit(0);
             c |= if odd == larger { 16 } else { 32 };
+            let half = raw.len() / 2;
+            if raw[..half].chunks(32).any(|c| c[0] == 0) {
+                c |= 64;
+            }
+            if raw[half..].chunks(32).any(|c| c[0] == 0) {
+                c |= 128;
+            }
             Ok(Tally::new(k, true, c))
         },
         |i| json!({"op": "c10.enc", "group": G::NAME, "P": vs[(i / 3) as usize].json(), "fmt": Fmt::ALL[(i % 3) as usize].name()}),
     );
 }
+/// G1 has cofactor 1: EVERY point of the curve is a group element, so points can be chosen by their x coordinate
+/// (tiny x, x = 0, powers of 256, zero bytes inside) although their discrete logs are unknown
+pub fn c10_g1_xs(tier: Tier) -> Vec<N> {
+    let q = refmodel::q();
+    let mut xs: Vec<N> = (0..=tier.pick(24u64, 2048)).map(n).collect();
+    for k in 1..32 {
+        xs.push(mccore::alpha::two(8 * k));
+        xs.push(mccore::alpha::two(8 * k) - n(1));
+        xs.push(mccore::alpha::two(8 * k) + n(1));
+    }
+    xs.push(refmodel::nhex(&"0100".repeat(16)));
+    xs.push(refmodel::nhex(&"00ff".repeat(16)));
+    xs.push(refmodel::nhex(&format!("01{}01", "00".repeat(30))));
+    xs.push(q - n(1));
+    xs.push(q - n(2));
+    xs.push(q - n(3));
+    mccore::alpha::dedup(xs)
+}
+pub fn c10_g1_point_case(x: &N, neg: bool, scale: u64, f: Fmt) -> Result<u32, Bad> {
+    use refmodel::Fq as RFq;
+    let q = refmodel::q();
+    let y2 = (x.modpow(&n(3), q) + n(5)) % q;
+    let y = match refmodel::sqrt_mod(&y2, q) {
+        Some(y) => if neg { (q - &y) % q } else { y },
+        None => return Ok(0),
+    };
+    let p = Pt::Aff(RFq(x.clone()), RFq(y.clone()));
+    assert!(on_curve(&p, &refmodel::b1()));
+    let sc = RFq(n(scale));
+    let s2 = sc.sq();
+    let v = lib("G1::new", || <G1 as GroupApi>::new_jac(&s2.mul(&RFq(x.clone())), &s2.mul(&sc).mul(&RFq(y.clone())), &sc))?;
+    let want = <G1 as GroupApi>::ref_encode(&p, f).unwrap();
+    let got = lib("encode", || GroupApi::encode(&v, f))?;
+    ensure!(got == want, "wrong-bytes", "G1 {} encoding of the point x={:x} y={:x} (z={}): library {} , SM9 format {}", f.name(), x, y, scale, refmodel::hex(&got), refmodel::hex(&want));
+    match lib("decode", || <G1 as GroupApi>::decode(f, &got))? {
+        Ok(g) => {
+            ensure!(alpha::<G1>(&g) == p, "roundtrip", "G1 decode({} encoding) denotes another point for x={:x}", f.name(), x);
+            ensure!(lib("encode", || GroupApi::encode(&g, f))? == got, "roundtrip", "G1 re-encoding differs for x={:x}", x);
+        }
+        Err(e) => return mccore::bad("roundtrip", format!("G1 decoder rejects the {} encoding of the curve point x={:x} y={:x}: {}", f.name(), x, y, e)),
+    }
+    Ok(3)
+}
+fn c10_g1_points(run: &Run) {
+    let xs = c10_g1_xs(run.tier);
+    let nx = xs.len() as u64;
+    const CL: [&str; 3] = ["carries-a-point", "x<2^128", "y-with-a-leading-zero-byte"];
+    run.grid(
+        Spec { name: "c10.G1.points-by-x", n: nx * 2 * 2 * 3, classes: &CL, required: &["carries-a-point", "x<2^128"] },
+        |i| {
+            let ix = unrank(i, &[nx, 2, 2, 3]);
+            let x = &xs[ix[0]];
+            let k = c10_g1_point_case(x, ix[1] == 1, [1u64, 2][ix[2]], Fmt::ALL[ix[3]])?;
+            let mut c = 0;
+            if k > 0 {
+                c |= 1;
+                if x.bits() <= 128 {
+                    c |= 2;
+                }
+            }
+            Ok(Tally::new(k, k > 0, c))
+        },
+        |i| {
+            let ix = unrank(i, &[nx, 2, 2, 3]);
+            let sc: u64 = if ix[2] == 0 { 1 } else { 2 };
+            json!({"op": "c10.g1pt", "x": jn(&xs[ix[0]]), "neg": ix[1] == 1, "scale": sc, "fmt": Fmt::ALL[ix[3]].name()})
+        },
+    );
+}
 pub fn c10_run(run: &Run) {
     c10_group::<G1>(run);
     c10_group::<G2>(run);
+    c10_g1_points(run);
 }
 pub fn c10_meta(_run: &Run) -> Meta {
     Meta {
         rule: "grid: every non-identity concrete value (D x all representatives, plus Scaled(s) for every special field value s) x the three \
                formats, for G1 and G2: library bytes must equal the SM9 format of the REFERENCE model's affine coordinates (big-endian, \
                imaginary part first, prefix by parity of y / of the real part of y), decode to a value == P denoting the same point, and \
-               re-encode identically. d and r-d are both in D so both parities occur."
+               re-encode identically. d and r-d are both in D so both parities occur. Byte structure: the first discrete logs whose \
+               x / y has a leading zero byte (classes required), and - G1 having cofactor 1 - curve points chosen by x (every small x, \
+               0, 256^k and neighbours, zero bytes inside) in both signs of y, z = 1 and z = 2."
             .into(),
         engine: "sm9mc-grid".into(),
         bounds: json!({}),
@@ -762,6 +866,14 @@ fn replay_g<G: GroupApi>(c: &Value) -> Result<(), Bad> {
                 _ => Fmt::Compressed,
             };
             c10_case::<G>(&val("P"), f).map(|_| ())
+        }
+        "c10.g1pt" => {
+            let f = match gs(c, "fmt").as_str() {
+                "raw" => Fmt::Raw,
+                "uncompressed" => Fmt::Uncompressed,
+                _ => Fmt::Compressed,
+            };
+            return c10_g1_point_case(&gn(c, "x"), c["neg"].as_bool().unwrap_or(false), c["scale"].as_u64().unwrap_or(1), f).map(|_| ());
         }
         "c15.pair" => c15_pair::<G>(&val("A"), &val("B")).map(|_| ()),
         "c15.pair2" => c15_pair::<G>(&val("A"), &val("B")).and_then(|_| c15_pair::<G>(&val("B"), &val("A"))).map(|_| ()),
